@@ -59,7 +59,9 @@ CLAIMS = {
          'x+wy, x-wy (mod q) in [0,4q) and the inverse (Gentleman-Sande) butterfly maps [0,2q) to x+y, (x-y)w in [0,2q) - both extracted as fragments of the innermost loop bodies of transform_to_rev / transform_from_rev; '
          'ntt_negacyclic_harvey / inverse_ntt_negacyclic_harvey reduce the lazy result to the exact canonical residue; dyadic products are exact (unit c06_polymod2). '
          'ASSUMED / not covered: the loop nest of the transform (which index pairs meet which root, iterator closures over split_at_mut) is an uninterpreted function with an assumed range contract, so that the transform equals the evaluation map, '
-         'is inverted by the inverse transform and turns negacyclic convolution into pointwise products is NOT decided; root-table construction and minimal-root selection not under contract yet.', '5 C09'),
+         'is inverted by the inverse transform and turns negacyclic convolution into pointwise products is NOT decided. '
+         'Root tables (unit c09_tables): NTTTables::new, for every modulus and every degree 2..2^17, returns Ok only with q = 1 (mod 2N), a root g with g^N = -1 (mod q), root_powers[rev(i)] the Shoup operand of g^i and inv_root_powers[rev(i-1)+1] that of g^-i for every 1 <= i < N (entry 0 is 1; all indices shown in range and distinct), N^-1 mod q, and the lazy-arithmetic handler for the same modulus; is_primitive_root, try_primitive_root (random search, terminates within its round limit, never accepts a non-root) and try_minimal_primitive_root (returns the least of the odd powers g^(2k+1), k < N, of the root found, and the lemma that each of them is again a root of X^N+1) are proved against their definitions. '
+         'ASSUMED: u64::reverse_bits restricted to n-bit values is an involution fixing 0 and 2^n-1; rand yields arbitrary values. Not decided: that Err is returned only when no root exists (the search is probabilistic), and that the least odd power is independent of the root found (needs the group structure), i.e. determinism across contexts.', '5 C09'),
  'C10': ('RNSTool::divide_and_round_q_last_inplace and mod_t_and_divide_q_last_inplace are proved, for every base size, degree, coefficient and canonical input, to return in each word exactly the residue formula '
          'of the algorithm (all lazy additions shown free of overflow, every slice in bounds), and two spec-level theorems give the integer reading: if the input residues are those of one integer X then each output word is '
          'floor((X + q_k/2)/q_k) mod q_i (round to nearest, identically in every component), respectively Y mod q_i with q_k*Y = X (mod t) for the BGV variant. '
